@@ -195,7 +195,11 @@ def conc(x, mv, native_cls=True):
         r = set(conc(e, mv, native_cls) for e, p in x.m.items() if mv(p))
         return r if isinstance(x, L.GSet) else frozenset(r)
     if isinstance(x, L.GDict):
-        return {k: conc(v, mv, native_cls) for k, (p, v) in x.m.items() if mv(p)}
+        items = {k: conc(v, mv, native_cls) for k, (p, v) in x.m.items() if mv(p)}
+        if x.default_factory is not None:
+            import collections
+            return collections.defaultdict(set, items)
+        return items
     if isinstance(x, L.GList):
         if x.alts is None:
             return [conc(v, mv, native_cls) for p, v in x.gseq if mv(p)]
@@ -272,6 +276,20 @@ class Job:
     def lifted(self):
         """call after the lifted run: records lift time"""
         self.lift_s = time.time() - self.t0
+
+    def call(self, fn, *args, replay=None, **kwargs):
+        """run a lifted library function; an exception that escapes unconditionally (e.g. RecursionError,
+        or an assertion that fails on every input) becomes an obligation that is violated by every
+        input -- the native replay then decides whether it is real"""
+        try:
+            return fn(*args, **kwargs)
+        except L.LiftError:
+            raise
+        except (Exception, RecursionError) as e:
+            self.oblige('%s returns normally [raised %s: %s]' % (getattr(fn, '__name__', 'call'), type(e).__name__, str(e)[:80]),
+                        E.g(), replay=replay)
+            self.failed_call = True
+            return None
 
     # -- obligations
     def oblige(self, label, bad, replay=None, demanded=True):
